@@ -352,6 +352,11 @@ class BPTC19696:
         for col in range(0, table.shape[1]):
             table[:, col] = Hamming1393.correct_numpy_array(table[:, col])
 
+        # transmit (interleaved) form of the word, repaired cells are written over it
+        repaired: bitarray = bitarray([0] * 196, endian="big")
+        for index, interleave_index in BPTC19696.FULL_DEINTERLEAVING_MAP.items():
+            repaired[interleave_index] = bits[index]
+
         for data_index, (
             interleave_index,
             row,
@@ -362,11 +367,10 @@ class BPTC19696:
             if row < 1:
                 # R(3) is not a cell of the 13x15 matrix, nothing was repaired there
                 continue
-            bits[data_index if deinterleaved else interleave_index] = table[row - 1][
-                column
-            ]
+            repaired[interleave_index] = table[row - 1][column]
 
-        return bits
+        # result comes in the form the word was given in
+        return BPTC19696.deinterleave_all_bits(repaired) if deinterleaved else repaired
 
     @staticmethod
     def make_encoding_table() -> numpy.ndarray:
